@@ -1,6 +1,7 @@
 """C12 — serialization round-trips every supported value (structural clauses: wire-shape
 equivalence of every Decode impl with the Encode impl selected for the same type, self-delimiting
 shapes, primitive width table)."""
+import os
 import re
 
 from .. import dataflow as df
@@ -283,6 +284,112 @@ def c12c(ctx, prog):
             ctx.fail(o2, "(postcard.rs)", "i%s is not zig-zag + varint of width %s on both sides (enc %s / dec %s)" % (w, w, e, d))
 
 
+def _rpo_pos(b):
+    if not hasattr(b, "_rpo_index"):
+        b._rpo_index = {bb: i for i, bb in enumerate(b._rpo())}
+    return b._rpo_index
+
+
+def enc_field_seq(b):
+    """{variant index or None: [field names in emission order]} for an Encode body whose events take fields of `self`."""
+    pos = _rpo_pos(b)
+    ev = []
+    for s_ in b.calls():
+        p = s_.node["fn"]["path"]
+        if p == wire.ENC_TRAIT + "::encode":
+            arg = s_.node["args"][0]
+        elif wire.PRIM.search(p) and s_.node["fn"].get("trait") == wire.ENCODER and len(s_.node["args"]) > 1:
+            arg = s_.node["args"][1]
+            if arg.get("c") is not None:
+                continue
+        else:
+            continue
+        if df.op_place(arg) is None:
+            return None
+        ap = df.access_path(b, arg)
+        if not ap or ap[0] != "<param _1>":
+            return None
+        fields = [x for x in ap[1:] if not x.startswith("<")]
+        if not fields:
+            return None
+        ev.append((pos.get(s_.bb, 0), s_, fields[-1]))
+    if not ev:
+        return {}
+    ev.sort(key=lambda x: x[0])
+    edges = df.variant_edges(b, "")
+    self_edges = [(sb, tb, v) for sb, tb, v, c in edges if is_self_place(b, c.place) and v != "otherwise"]
+    out = {}
+    for _, s_, f in ev:
+        var = None
+        for sb, tb, v in self_edges:
+            if b.edge_dominates((sb, tb), s_.bb) and s_.bb in b.reachable([tb]):
+                var = v
+        out.setdefault(var, []).append(f)
+    return out
+
+
+def dec_field_seq(b, self_adt):
+    """{variant index or None: [field names in the order their values are read]} for a Decode body building `self_adt`."""
+    pos = _rpo_pos(b)
+    out = {}
+    adt = b.prog.adts.get(self_adt)
+    is_enum = adt is not None and adt["adt_kind"] == "Enum"
+    for a in b.assigns(lambda st: st["rv"]["k"] == "agg" and st["rv"].get("ak") == "adt" and st["rv"].get("adt") == self_adt):
+        rv = a.node["rv"]
+        seq = []
+        for name, op_ in zip(rv["fields"], rv["ops"]):
+            if df.op_place(op_) is None:
+                continue
+            reads = [x.site for x in df.origins_of_operand(b, op_) if x.kind == "call" and
+                     ((x.callee() or "") == wire.DEC_TRAIT + "::decode" or (wire.PRIM.search(x.callee() or "") and x.site.node["fn"].get("trait") == wire.DECODER))]
+            if len(reads) != 1:
+                if reads:
+                    return None
+                continue
+            seq.append((pos.get(reads[0].bb, 0), name))
+        seq.sort()
+        var = int(rv["variant"]) if is_enum or adt is None and int(rv["variant"]) != 0 else None
+        if is_enum:
+            var = int(rv["variant"])
+        out[var] = [n for _, n in seq]
+    return out
+
+
+def c12e(ctx, enc, dec, tag):
+    o = ctx.ob("C12.e", "%s/field-order-correspondence" % tag, "K8+K5", "the i-th value written comes from the field that the i-th value read is stored into")
+    n = 0
+    names = []
+    for d in dec.impls:
+        adt_path = d["rec"].get("self_adt")
+        if not adt_path:
+            continue
+        e, s_ = enc.select(d["self"])
+        if e is None or e["rec"].get("self_adt") != adt_path:
+            continue
+        es = enc_field_seq(e["body"])
+        ds = dec_field_seq(d["body"], adt_path)
+        if not es or not ds:
+            continue
+        common = [v for v in es if v in ds]
+        if not common:
+            continue
+        n += 1
+        ctx.touch(d["body"])
+        names.append("%s%s" % (short(repr(d["self"])), {k: es[k] for k in common}))
+        for v in common:
+            if es[v] != ds[v]:
+                oo = ctx.ob("C12.e", "%s/field-order/%s" % (tag, short(repr(d["self"]))), "K8+K5", o.desc)
+                oo.sites = 1
+                ctx.fail(oo, Site(d["body"], 0, 0), "`%s`%s: Encode writes the fields in the order %s but Decode reads them into %s — values of equal type are silently swapped" % (
+                    short(repr(d["self"])), "" if v is None else " (variant #%s)" % v, es[v], ds[v]))
+    o.sites = n
+    o.detail = "; ".join(names)
+    if os.environ.get("QBV_DEBUG"):
+        print("\n".join(names))
+    if n < (20 if tag == "main" else 12):
+        ctx.fail(o, "(program)", "field correspondence could be established for only %d types (%s)" % (n, tag))
+
+
 def run(ctx):
     prog = ctx.prog
     progs = [prog]
@@ -293,6 +400,7 @@ def run(ctx):
     ctx.run_clause("C12.a", a)
     if "x" in enc_dec:
         ctx.run_clause("C12.b", lambda c: c12b(c, enc_dec["x"][0]))
+        ctx.run_clause("C12.e", lambda c: c12e(c, enc_dec["x"][0], enc_dec["x"][1], "main"))
     ctx.run_clause("C12.c", lambda c: c12c(c, prog))
     # the derive macros: their fixtures live in the serializer's unit-test module (unit/tuple/named structs, enums with
     # unit/tuple/struct variants, generics, #[serialize(skip)]); analysed, never run
@@ -305,6 +413,7 @@ def run(ctx):
         if len(fx) < 8:
             c.fail(o, "(program)", "expected >= 8 derived fixture types in qbice_serialize's test module, found %d" % len(fx))
         c12b(c, e)
+        c12e(c, e, d, "derive-fixtures")
     ctx.run_clause("C12.d", fixtures)
     if ctx.tier == "thorough":
         rocks = ctx.program("rocks")
